@@ -25,6 +25,10 @@ pub struct BlobCase {
     pub wrapped: KeySeed,
     pub wrapping: KeySeed,
     pub password: BytesSpec,
+    /// v1 PKE on a getrandom back end: script the RSA-KEM draw so that the ciphertext c starts
+    /// with this many zero bytes (the shape in which stripping / re-padding bugs live)
+    #[serde(default)]
+    pub aim_leading_zero: u8,
 }
 
 #[derive(Clone, Debug, Serialize, Deserialize)]
@@ -34,12 +38,13 @@ pub struct ReplayCase {
 }
 
 pub fn blob_strategy(kind: u8, secret: bool) -> impl Strategy<Value = BlobCase> {
-    (gens::key_seed(), gens::key_seed(), gens::password()).prop_map(move |(wrapped, wrapping, password)| BlobCase {
+    (gens::key_seed(), gens::key_seed(), gens::password(), prop_oneof![2 => Just(0u8), 2 => Just(1u8), 1 => Just(2u8)]).prop_map(move |(wrapped, wrapping, password, aim)| BlobCase {
         kind,
         secret,
         wrapped,
         wrapping,
         password,
+        aim_leading_zero: if kind == 2 { aim } else { 0 },
     })
 }
 
@@ -130,7 +135,17 @@ pub fn run_blob_opts<B: Backend>(acc: &mut Acc, c: &BlobCase, filter: Option<&Mu
     let rcase = |id: &MutId| serde_json::to_value(&ReplayCase { blob: c.clone(), mutant: id.clone() }).unwrap();
     let wk = local_key::<B>(&c.wrapping);
     let pw = c.password.bytes();
-    let (pke_sk, pke_pk, _, _) = pke_pair::<B>(&c.wrapping);
+    let (pke_sk, pke_pk, pke_sk_bytes, pke_pk_bytes) = pke_pair::<B>(&c.wrapping);
+    if c.kind == 2 && ver == Ver::V1 && B::GETRANDOM && c.aim_leading_zero > 0 {
+        match crate::props::c05::script_leading_zero_c(hash_of(&c.wrapped), c.aim_leading_zero, &pke_sk_bytes, &pke_pk_bytes) {
+            Ok(0) => {}
+            Ok(_) => acc.class("pke:v1-ciphertext-leading-zero-constructed"),
+            Err(e) => {
+                acc.fail(e, serde_json::to_value(c).unwrap());
+                return;
+            }
+        }
+    }
 
     // produce the blob with the library itself
     let orig_key: Vec<u8> = if c.secret { secret_bytes(ver, &c.wrapped) } else { local_key_bytes(&c.wrapped).to_vec() };
@@ -140,7 +155,12 @@ pub fn run_blob_opts<B: Backend>(acc: &mut Acc, c: &BlobCase, filter: Option<&Mu
         (0, true) => secret_key::<B>(&c.wrapped).wrap_pie(&wk).map(|w| w.to_string()),
         (1, false) => local_key::<B>(&c.wrapped).password_wrap_with_params(&pw, &pw_params::<B>(&params)).map(|w| w.to_string()),
         (1, true) => secret_key::<B>(&c.wrapped).password_wrap_with_params(&pw, &pw_params::<B>(&params)).map(|w| w.to_string()),
-        _ => local_key::<B>(&c.wrapped).seal(&pke_pk).map(|w| w.to_string()),
+        _ => {
+            rng::begin_op();
+            let r = local_key::<B>(&c.wrapped).seal(&pke_pk).map(|w| w.to_string());
+            rng::end_op();
+            r
+        }
     };
     let ctl = MutId { class: "control".into(), pos: 0, arg: 0 };
     let text = match text {
@@ -179,7 +199,7 @@ pub fn run_blob_opts<B: Backend>(acc: &mut Acc, c: &BlobCase, filter: Option<&Mu
     if expensive && acc.tier == Tier::Quick {
         // RSA-4096 private operation per mutant: keep a deterministic spread of ~220
         let step = (muts.len() / 220).max(1);
-        muts = muts.into_iter().enumerate().filter(|(i, _)| i % step == 0).map(|(_, m)| m).collect();
+        muts = muts.into_iter().enumerate().filter(|(i, m)| i % step == 0 || m.id.class.starts_with("delete")).map(|(_, m)| m).collect();
     }
     let min_len = *bounds.last().unwrap();
     if relabel_only {
